@@ -18,6 +18,10 @@ CLAIMED = {
             "Theorems C19_components/C19_short_target/C19_dispatch hold for all schemes, hosts, digipeater lists and targets and for all register/unregister/dial histories of the model of ParseURL's post-processing and of the dialer registry; the model is run against transport.ParseURL/DialURL on composed URLs, arbitrary raw strings and random histories, with goroutines exercising the registry concurrently.",
             "net/url.Parse is standard-library code: its result (scheme, host, path, host parameter) is the model's input; upper-casing is modelled for ASCII. Atomicity of the registry operations (one mutex held for each whole access) is read from the code and only sampled by concurrent runs: the linearizability clause is partial with respect to the Go runtime.",
             "DESIGN.md section 6 C19"),
+    "C18": ("Coq proof by induction over lines and wrap chunks (text preservation, CRLF line structure, Body header) + correspondence on Latin-1 texts",
+            "Theorems C18_preserve/C18_lines/C18_header hold for every byte string in the body character set, of any length and line structure, for the model of StringToBody/SetBody (as repaired by two fix: commits); the model is run against the real SetBody on texts with lines up to several hundred KB and multi-byte characters at the wrap positions.",
+            "The UTF-8 to ISO-8859-1 translation (go-charset) is library code outside the model: the model's input is the translated text; bufio.ScanLines is modelled.",
+            "DESIGN.md section 6 C18"),
 }
 
 NOT_YET = {}
